@@ -1,5 +1,6 @@
 import HsVerif.Proofs.SysRotateChain
 import HsVerif.Proofs.SysRotateGlue
+import HsVerif.Proofs.SysRotateLast
 import HsVerif.Props.C05Quorum
 /-! C05, task S12d — ROTATING LEADERS (with the silent-minority setting of S12c: `RotCfg C` — the participants `C.honest` are at
 least a quorum; nothing is assumed about who leads which view except, per theorem, that the leaders of the views in question are
@@ -492,5 +493,216 @@ theorem rotating_recovery_commits :
   exact ⟨s, e1, e2, e4⟩
 
 end NonVacuityRecovery
+
+
+/-! ## the last leader need not take part (task S12f; Proofs/SysRotateLast.lean) -/
+
+/-- **From a synchronised view to a commit with ROTATING leaders** (and a silent minority): the leaders of the views `w + 1 … w + 4`
+are participants (`∈ C.honest`) — possibly four different replicas.  PRIMED VERSION: the leader of view `w + 4`, only the destination of
+the last votes, need NOT be a participant.  In phase A at `(w, B)` (collector: the leader of `w + 1`) with
+the votes in flight and the committer's walk from `B` possible at every participant, run three views of the chain (votes, then
+proposals, each in any order; the orders range over the participants other than the collector of that view).  Then EVERY
+participant has committed `B`. -/
+theorem synced_commits_rot' (k : Keys) (C : SysCfg) (w N : Nat) (hC : RotCfg C) (B P : Block) (bt : Nat → Nat)
+    (x : SysState × Msgs) (hN : N + 18 ≤ 99999) (hA : PhaseARot C w N B P bt x.1)
+    (hfly : VotesFly C (ldr C (w + 1)) B.hash bt x.2)
+    (hwalk : ∀ j ∈ C.honest, ∃ s, x.1.reps.lookup j = some s ∧ WalkZ B s)
+    (hl2 : ldr C (w + 2) ∈ C.honest) (hl3 : ldr C (w + 3) ∈ C.honest)
+    (v1 p1 v2 p2 v3 p3 : List Nat)
+    (hv1 : OthersOrder C (ldr C (w + 1)) v1) (hp1 : OthersOrder C (ldr C (w + 1)) p1)
+    (hv2 : OthersOrder C (ldr C (w + 2)) v2) (hp2 : OthersOrder C (ldr C (w + 2)) p2)
+    (hv3 : OthersOrder C (ldr C (w + 3)) v3) (hp3 : OthersOrder C (ldr C (w + 3)) p3) :
+    ∃ (B1 B2 B3 : Block),
+      Link B1 B ∧ Link B2 B1 ∧ Link B3 B2 ∧
+      ∀ j ∈ C.honest, ∃ s0 s, x.1.reps.lookup j = some s0 ∧
+        (chainViewRot k C v3 p3 (chainViewRot k C v2 p2 (chainViewRot k C v1 p1 x))).1.reps.lookup j = some s ∧
+        s.committed = B ∧ s0.committed.view < s.committed.view :=
+  HsVerif.Model.synced_commits_rot' k C w N hC B P bt x hN hA hfly hwalk hl2 hl3 v1 p1 v2 p2 v3 p3 hv1 hp1 hv2 hp2 hv3 hp3
+
+/-- **Commit after recovery with rotating leaders** (and a silent minority), the last leader free: the leaders of the views
+`v + 1 … v + 4` are participants (`v + 1` via `RecPreLive.lmem`), the leader of `v + 5` — only the destination of the last votes —
+need NOT be one; the leaders of `v + 1` and `v + 2` differ.  From any reachable state that satisfies `RecPreLive` (leader
+`ldr C (v + 1)`), `RecStart`, `CA'`, `KeysOK`, `SyncPreRot`: timeout messages (any order), proposals (any order), three views of the
+chain (any orders) — every participant has committed the block `b'` of view `v + 1` proposed after the recovery. -/
+theorem commit_after_recovery_rot' (k : Keys) (C : SysCfg) (hC : RotCfg C) (D : RecData) (s0 : Nat → RState)
+    (σ0 : SysState) (blk : Hash → Block) (hk : KeysOK k) (hr : Reach k C σ0) (hca : CA' σ0 blk)
+    (hne12 : ldr C (D.v + 1) ≠ ldr C (D.v + 1 + 1))
+    (hl2 : ldr C (D.v + 1 + 1) ∈ C.honest) (hl3 : ldr C (D.v + 1 + 2) ∈ C.honest) (hl4 : ldr C (D.v + 1 + 3) ∈ C.honest)
+    (hP : RecPreLive k C D s0 (ldr C (D.v + 1)) σ0.truth) (h0 : RecStart C s0 σ0.truth σ0)
+    (msgs : List (Nat × Nat)) (hm : FullOrder C msgs) (N : Nat) (hY : SyncPreRot C D s0 N)
+    (ordP v1 p1 v2 p2 v3 p3 : List Nat) (hordP : OthersOrder C (ldr C (D.v + 1)) ordP)
+    (hv1 : OthersOrder C (ldr C (D.v + 1 + 1)) v1) (hp1 : OthersOrder C (ldr C (D.v + 1 + 1)) p1)
+    (hv2 : OthersOrder C (ldr C (D.v + 1 + 2)) v2) (hp2 : OthersOrder C (ldr C (D.v + 1 + 2)) p2)
+    (hv3 : OthersOrder C (ldr C (D.v + 1 + 3)) v3) (hp3 : OthersOrder C (ldr C (D.v + 1 + 3)) p3) :
+    ∃ (i : Nat) (b' : Block), i ∈ C.honest ∧ Top C D i ∧ b'.view = D.v + 1 ∧ b'.qc = D.hq i ∧ b'.proposer = ldr C (D.v + 1) ∧
+      ∀ j ∈ C.honest, ∃ s,
+        (chainViewRot k C v3 p3 (chainViewRot k C v2 p2 (chainViewRot k C v1 p1
+          (proposalRoundR k C ordP (recoveryRound k C D σ0 msgs))))).1.reps.lookup j = some s ∧
+        s.committed = b' ∧ s.committed.view = D.v + 1 ∧ (s0 j).committed.view < s.committed.view :=
+  HsVerif.Model.commit_after_recovery_rot_core' k C hC D s0 σ0 blk hk hr hca hne12 hl2 hl3 hl4 hP h0 msgs hm N hY ordP v1 p1 v2 p2 v3 p3 hordP hv1 hp1 hv2 hp2 hv3 hp3
+
+/-! ## rotation with a SILENT id (task S12f): n = 5, round-robin, id 5 never takes part -/
+section NonVacuitySilent
+
+/-- five ids, round-robin leaders; replicas 1 … 4 run the model (quorum 4), id 5 is silent — it would lead views 4, 9, 14 … -/
+def sCfg : SysCfg := { n := 5, rules := .chained, scheme := .ecdsa, agg := false, leaders := .roundRobin, honest := [1, 2, 3, 4] }
+
+/-- six rounds of the synchronous run: `P1`, `P2`, `P3` proposed by replicas 2, 3, 4; the votes for `P3` go to id 5, the leader of view 4,
+which is silent: nothing happens any more; everybody times out in view 3, the timeout messages take everybody to view 4 (nobody
+proposes), and everybody times out in view 4 -/
+def sRun : SysState × Msgs :=
+  deliverAll exKeys sCfg
+    ((syncRound exKeys sCfg (deliverAll exKeys sCfg ((syncRun exKeys sCfg 6).1, [])
+      [(1, .localTimeout 3), (2, .localTimeout 3), (3, .localTimeout 3), (4, .localTimeout 3)])).1, [])
+    [(1, .localTimeout 4), (2, .localTimeout 4), (3, .localTimeout 4), (4, .localTimeout 4)]
+
+def sS0 (j : Nat) : RState := (sRun.1.reps.lookup j).getD {}
+def sBlk (h : Hash) : Block := ((sS0 1).chain.blocks.lookup h).getD genesisBlock
+def sQC2 : QC := ⟨some (.multi .ecdsa [⟨4, 8⟩, ⟨3, 5⟩, ⟨1, 6⟩, ⟨2, 7⟩]), 2, "P2"⟩
+def sData : RecData :=
+  { v := 4, hq := fun _ => sQC2, hb := fun _ => sBlk "P2"
+    htc := fun i =>
+      if i = 1 then ⟨some (.multi .ecdsa [⟨1, 13⟩, ⟨2, 14⟩, ⟨3, 15⟩, ⟨4, 16⟩]), 3⟩
+      else if i = 2 then ⟨some (.multi .ecdsa [⟨2, 14⟩, ⟨1, 13⟩, ⟨3, 15⟩, ⟨4, 16⟩]), 3⟩
+      else if i = 3 then ⟨some (.multi .ecdsa [⟨3, 15⟩, ⟨1, 13⟩, ⟨2, 14⟩, ⟨4, 16⟩]), 3⟩
+      else ⟨some (.multi .ecdsa [⟨4, 16⟩, ⟨1, 13⟩, ⟨2, 14⟩, ⟨3, 15⟩]), 3⟩
+    bt := fun i => i + 16 }
+
+/-- `uOK` for the configuration `sCfg` -/
+def sOK (D : RecData) (s : RState) (T : List (Nat × Atom)) (j : Nat) : Bool :=
+  decide (s.view = D.v) && decide (s.queue.length = 0) && decide (s.timeouts = [D.tmsg sCfg j]) &&
+  decide (s.highQC = D.hq j) && decide (s.waitingVC.length = 0) && decide (s.lastVoted ≤ D.v) &&
+  sCfg.honest.all (fun i =>
+    verifyQC (env exKeys (sCfg.rcfg j) { s with truth := T }) (D.hq i) &&
+    decide (s.chain.blocks.lookup (D.hq i).hash = some (D.hb i)) &&
+    decide ((D.hq i).view = (D.hb i).view) && decide ((D.hq i).view < D.v) &&
+    verifyTC (env exKeys (sCfg.rcfg j) { s with truth := T }) (D.htc i) && decide ((D.htc i).view < D.v) &&
+    acceptedB (fun b => T.lookup b) (sCfg.rcfg j).cfg (D.tmsg sCfg i) &&
+    (match s.chain.blocks.lookup (D.hb i).qc.hash with | some P => decide (P.view ≤ D.v) | none => false) &&
+    cmWalk (s.chain.blocks.length + 2) s.chain.blocks s.committed.view (D.hb i) &&
+    markWalk (s.chain.fuel + 1) s.chain.blocks s.lastProposed (D.hb i)) &&
+  decide (s.chain.fetchable.length = 0) && decide (s.waitingProp.length = 0) && namesOK D.v s &&
+  decide (s.committed.view ≤ D.v) && decide (2 * s.chain.blocks.length + (D.v + 1) ≤ 1000)
+
+def sAllOK : Bool :=
+  sCfg.honest.all fun j =>
+    match sRun.1.reps.lookup j with
+    | some s => sOK sData s sRun.1.truth j
+    | none => false
+
+set_option maxRecDepth 100000 in
+theorem sAllOK_true : sAllOK = true := by decide +kernel
+
+theorem s_rep (j : Nat) (hj : j ∈ sCfg.honest) :
+    sRun.1.reps.lookup j = some (sS0 j) ∧ sOK sData (sS0 j) sRun.1.truth j = true := by
+  have h := List.all_eq_true.mp sAllOK_true j hj
+  unfold sS0
+  cases hl : sRun.1.reps.lookup j with
+  | none => rw [hl] at h; cases h
+  | some s => rw [hl] at h; exact ⟨rfl, h⟩
+
+theorem s_of_ok (D : RecData) (s : RState) (T : List (Nat × Atom)) (j : Nat) (h : sOK D s T j = true) :
+    (RColl sCfg D s j [] s ∧ s.waitingVC = [] ∧ s.lastVoted ≤ D.v ∧ KnowsAll exKeys sCfg D j { s with truth := T }) ∧
+    (∀ i ∈ sCfg.honest, (∃ P, s.chain.blocks.lookup (D.hb i).qc.hash = some P ∧ P.view ≤ D.v) ∧
+      cmWalk (s.chain.blocks.length + 2) s.chain.blocks s.committed.view (D.hb i) = true ∧
+      markWalk (s.chain.fuel + 1) s.chain.blocks s.lastProposed (D.hb i) = true) ∧
+    s.chain.fetchable = [] ∧ s.waitingProp = [] ∧
+    (∀ u, D.v < u → s.chain.blocks.lookup (pname u) = none ∧ s.votes.lookup (pname u) = none) ∧
+    s.committed.view ≤ D.v ∧ 2 * s.chain.blocks.length + (D.v + 1) ≤ 1000 := by
+  simp only [sOK, Bool.and_eq_true, decide_eq_true_eq, List.all_eq_true] at h
+  obtain ⟨⟨⟨⟨⟨⟨⟨⟨⟨⟨⟨h1, h2⟩, h3⟩, h4⟩, h5⟩, h6⟩, h7⟩, g1⟩, g2⟩, g3⟩, g4⟩, g5⟩ := h
+  refine ⟨⟨⟨Frame.refl _, h1, List.eq_nil_of_length_eq_zero h2, h3, h4⟩, List.eq_nil_of_length_eq_zero h5, h6, ?_, ?_, ?_⟩,
+    ?_, List.eq_nil_of_length_eq_zero g1, List.eq_nil_of_length_eq_zero g2, names_of_ok D.v s g3, g4, g5⟩
+  · intro i hi
+    obtain ⟨⟨⟨⟨⟨⟨⟨⟨⟨a1, a2⟩, a3⟩, a4⟩, _⟩, _⟩, _⟩, _⟩, _⟩, _⟩ := h7 i hi
+    exact ⟨a1, a2, a3, a4⟩
+  · intro i hi
+    obtain ⟨⟨⟨⟨⟨⟨⟨⟨⟨_, _⟩, _⟩, _⟩, a5⟩, a6⟩, _⟩, _⟩, _⟩, _⟩ := h7 i hi
+    exact ⟨a5, a6⟩
+  · intro i hi
+    obtain ⟨⟨⟨⟨⟨⟨⟨⟨⟨_, _⟩, _⟩, _⟩, _⟩, _⟩, a7⟩, _⟩, _⟩, _⟩ := h7 i hi
+    exact accepted_of_acceptedB _ _ _ a7
+  · intro i hi
+    obtain ⟨⟨⟨_, a8⟩, a9⟩, a10⟩ := h7 i hi
+    refine ⟨?_, a9, a10⟩
+    cases hl : s.chain.blocks.lookup (D.hb i).qc.hash with
+    | none => rw [hl] at a8; cases a8
+    | some P => rw [hl] at a8; exact ⟨P, rfl, by simpa using a8⟩
+
+theorem sRun_reach : Reach exKeys sCfg sRun.1 := by
+  have h1 : Reach exKeys sCfg (deliverAll exKeys sCfg ((syncRun exKeys sCfg 6).1, [])
+      [(1, .localTimeout 3), (2, .localTimeout 3), (3, .localTimeout 3), (4, .localTimeout 3)]).1 :=
+    deliverAll_reach2 exKeys sCfg _ _ _ (syncRun_reach exKeys sCfg 6)
+  have h2 : Reach exKeys sCfg (syncRound exKeys sCfg (deliverAll exKeys sCfg ((syncRun exKeys sCfg 6).1, [])
+      [(1, .localTimeout 3), (2, .localTimeout 3), (3, .localTimeout 3), (4, .localTimeout 3)])).1 := by
+    unfold syncRound; exact deliverAll_reach2 exKeys sCfg _ _ _ h1
+  unfold sRun; exact deliverAll_reach2 exKeys sCfg _ _ _ h2
+
+theorem sRot : RotCfg sCfg :=
+  ⟨(by show Scheme.ecdsa ≠ Scheme.bls12; decide), rfl, Or.inl rfl, (by show [1, 2, 3, 4].Nodup; decide),
+   (by show ∀ i ∈ [1, 2, 3, 4], 1 ≤ i ∧ i ≤ 5; decide), (by decide), (by show 2 ≤ 5; decide)⟩
+
+set_option maxRecDepth 100000 in
+/-- **all hypotheses of `commit_after_recovery_rot'` hold of that run**: id 5 is not a participant (`FewFaulty`: one of five);
+the leaders of views 5 … 8 are the participants 1, 2, 3, 4; the leader of view 9 — only a vote destination — is the silent id 5 -/
+theorem commit_after_recovery_rot'_nonvacuous :
+    RotCfg sCfg ∧ 5 ∉ sCfg.honest ∧ FewFaulty sCfg ∧ KeysOK exKeys ∧ Reach exKeys sCfg sRun.1 ∧ CA' sRun.1 sBlk ∧
+    [ldr sCfg 4, ldr sCfg 5, ldr sCfg 6, ldr sCfg 7, ldr sCfg 8, ldr sCfg 9] = [5, 1, 2, 3, 4, 5] ∧
+    RecPreLive exKeys sCfg sData sS0 1 sRun.1.truth ∧ RecStart sCfg sS0 sRun.1.truth sRun.1 ∧
+    sRun.2 = (senderMajor sCfg).map (fun p => (p.1, Ev.timeout (sData.tmsg sCfg p.2))) ∧
+    SyncPreRot sCfg sData sS0 1000 := by
+  have hl5 : ldr sCfg (sData.v + 1) = 1 := by decide
+  have hreach := sRun_reach
+  have hrep := fun j hj => s_of_ok sData _ _ j (s_rep j hj).2
+  refine ⟨sRot, by decide, by unfold FewFaulty; decide, tmoMsgKey_ne_blkMsg, hreach, ca'_of_ca'Check _ _ (by decide +kernel), by decide,
+    ⟨rfl, by decide, by decide, by decide, by decide, by decide, by decide, by unfold FewFaulty; decide, by decide, ?_, by decide,
+      ?_, ?_, ?_⟩,
+    recStart_of_reach exKeys sCfg sS0 sRun.1 hreach (by decide +kernel) (fun j hj => (s_rep j hj).1),
+    by decide +kernel,
+    ⟨⟨fun j hj => (hrep j hj).2.2.1, fun j hj => (hrep j hj).2.2.2.1, fun j hj => (hrep j hj).2.2.2.2.1,
+      fun j hj i hi _ => ((hrep j hj).2.1 i hi).1, fun j hj => (hrep j hj).2.2.2.2.2.1, fun j hj => (hrep j hj).2.2.2.2.2.2,
+      fun j hj i hi _ => ((hrep j hj).2.1 i hi).2.1, by decide⟩, fun j hj i hi _ => ((hrep j hj).2.1 i hi).2.2⟩⟩
+  · intro j _; exact hl5
+  · intro j hj; exact (hrep j hj).1
+  · intro i hi
+    exact ((hrep 1 (by decide)).2.1 i hi).2.2
+  · intro j hj i hi _
+    obtain ⟨P, hP, _⟩ := ((hrep j hj).2.1 i hi).1
+    exact Or.inr ⟨P, hP⟩
+
+/-- the run after the recovery: timeout messages, proposals of `P5` (proposer 1), three views (proposers 2, 3, 4); the last votes go to id 5 -/
+def sFinal : SysState × Msgs :=
+  chainViewRot exKeys sCfg [1, 2, 3] [3, 2, 1] (chainViewRot exKeys sCfg [4, 1, 2] [1, 2, 4] (chainViewRot exKeys sCfg [3, 1, 4] [4, 3, 1]
+    (proposalRoundR exKeys sCfg [2, 3, 4] (recoveryRound exKeys sCfg sData sRun.1 (senderMajor sCfg)))))
+
+set_option maxRecDepth 100000 in
+/-- **rotation with a silent id**: `commit_after_recovery_rot'` applies and the kernel evaluation agrees — the four participants
+commit `P5`, the block proposed after the recovery (nothing was committed before), although id 5 led view 4 and leads view 9 -/
+theorem rotating_silent_commits :
+    (∃ b' : Block, b'.view = 5 ∧ ∀ j ∈ sCfg.honest, ∃ s, sFinal.1.reps.lookup j = some s ∧ s.committed = b' ∧
+      (sS0 j).committed.view < s.committed.view) ∧
+    sFinal.1.reps.map (fun p => (p.1, p.2.view, p.2.committed.hash, p.2.lastProposed)) =
+      [(1, 8, "P5", 5), (2, 8, "P5", 6), (3, 8, "P5", 7), (4, 8, "P5", 8)] := by
+  refine ⟨?_, by decide +kernel⟩
+  unfold sFinal
+  obtain ⟨hC, _, _, hk, hr, hca, _, hP, h0, _, hY⟩ := commit_after_recovery_rot'_nonvacuous
+  have ho : ∀ (c : Nat) (l : List Nat), l.Nodup → (∀ j ∈ l, j ∈ [1, 2, 3, 4] ∧ j ≠ c) →
+      (∀ j ∈ [1, 2, 3, 4], j ≠ c → j ∈ l) → OthersOrder sCfg c l :=
+    fun c l h1 h2 h3 => ⟨h1, h2, h3⟩
+  obtain ⟨i, b', _, _, r3, _, _, r6⟩ := commit_after_recovery_rot' exKeys sCfg hC sData sS0 sRun.1 sBlk hk hr hca
+    (by decide) (by decide) (by decide) (by decide)
+    (by rw [show ldr sCfg (sData.v + 1) = 1 from by decide]; exact hP) h0
+    (senderMajor sCfg) (senderMajor_full sCfg (by decide)) 1000 hY
+    [2, 3, 4] [3, 1, 4] [4, 3, 1] [4, 1, 2] [1, 2, 4] [1, 2, 3] [3, 2, 1]
+    (ho 1 _ (by decide) (by decide) (by decide))
+    (ho 2 _ (by decide) (by decide) (by decide)) (ho 2 _ (by decide) (by decide) (by decide))
+    (ho 3 _ (by decide) (by decide) (by decide)) (ho 3 _ (by decide) (by decide) (by decide))
+    (ho 4 _ (by decide) (by decide) (by decide)) (ho 4 _ (by decide) (by decide) (by decide))
+  refine ⟨b', r3, ?_⟩
+  intro j hj
+  obtain ⟨s, e1, e2, _, e4⟩ := r6 j hj
+  exact ⟨s, e1, e2, e4⟩
+
+end NonVacuitySilent
 
 end HsVerif.Props.C05Rotate
